@@ -486,9 +486,15 @@ def hostile_doc(draw):
     # unsupported / ignorable content
     if focus == "unsupported" or chance(6):
         for _ in range(draw(st.integers(1, 3))):
-            k = pick(["text", "image", "style", "script", "filter", "mask", "pattern", "marker", "foreign", "title", "a", "switch", "anon-symbol",
+            k = pick(["text", "image", "style", "script", "filter", "mask", "pattern", "marker", "foreign", "title", "a", "switch", "anon-symbol", "in-kept-group", "in-kept-group",
                       "pi", "comment", "cdata", "xinclude", "foreign-ns", "stylesheet-pi", "tspan", "desc"])
-            if k == "text":
+            if k == "in-kept-group":
+                # an unsupported element inside a translucent group with several children (such a group is kept)
+                bad = pick([["image", {"xlink:href": "data:image/png;base64,AAAA", "width": "5", "height": "5"}, []], ["text", {"x": "1", "y": "5"}, ["t"]], ["mask", {"id": "mk9"}, [shape()]], ["foreignObject", {"width": "3", "height": "3"}, []]])
+                kids = [paint(shape()), paint(shape()), bad]
+                g = ["g", {"opacity": pick(["0.5", "0.25"])}, kids if chance(50) else [kids[2], kids[0], kids[1]]]
+                body.append(g if chance(60) else ["g", {"opacity": "0.8"}, [g, paint(shape())]])
+            elif k == "text":
                 body.append(["text", {"x": num(), "y": num()}, ["hello ", ["tspan", {"dx": "2"}, ["world"]]]])
             elif k == "tspan":
                 body.append(["tspan", {}, ["x"]])
